@@ -8,9 +8,14 @@ package main
 
 import (
 	"bufio"
+	"encoding/base64"
 	"encoding/json"
 	"flag"
 	"fmt"
+	"github.com/jcmturner/goidentity/v6"
+	"github.com/jcmturner/gokrb5/v8/spnego"
+	"net/http"
+	"net/http/httptest"
 	"os"
 	"os/exec"
 	"strings"
@@ -91,7 +96,7 @@ func cmdMITClient(args []string) error {
 					SvcEtype int    `json:"svcEtype"`
 					Msg      string `json:"msg"`
 				}
-				line := map[string]interface{}{"ev": "mitclient", "et": et, "preauth": preauth, "referral": remote, "user": user, "realm": realm}
+				line := map[string]interface{}{"ev": "mitclient", "et": et, "preauth": preauth, "referral": remote, "user": user, "realm": realm, "who": user + "@" + realm}
 				sc := bufio.NewScanner(strings.NewReader(string(ob)))
 				if rerr != nil || !sc.Scan() || json.Unmarshal(sc.Bytes(), &mo) != nil {
 					line["mitStage"], line["mitRC"], line["mitMsg"] = 0, -1, fmt.Sprint(rerr)
@@ -120,6 +125,44 @@ func cmdMITClient(args []string) error {
 					})
 				}
 				line["accepted"], line["idName"], line["idRealm"], line["err"], line["panic"] = accepted, idName, idRealm, verr, pn
+				// ---- MIT's initiator through gokrb5's HTTP wrapper: its SPNEGO token (and its raw Kerberos mechanism token) in an
+				// Authorization header; the wrapped handler must run with the user's identity
+				for _, mech := range []string{"spnego", "krb5"} {
+					served, who, hp := false, "", ""
+					if !remote { // (the host-based name below is in the client's realm)
+						cmd := exec.Command(*ref)
+						cmd.Env = append(os.Environ(), "KRB5_CONFIG="+cf, "KRB5CCNAME=FILE:"+cf+".cc", "KRB5RCACHETYPE=none")
+						cmd.Stdin = strings.NewReader(fmt.Sprintf("gssinit %s@%s %s HTTP@svc.mit.test %s\n", user, realm, pw, mech))
+						ob, _ := cmd.Output()
+						var go_ struct {
+							RC    int    `json:"rc"`
+							Token string `json:"token"`
+						}
+						json.Unmarshal(ob, &go_)
+						if go_.RC == 0 && go_.Token != "" {
+							skt := keytab.New()
+							if err := skt.AddEntry(spn, svcRealm, "svc-secret", time.Now(), 1, et); err != nil {
+								return err
+							}
+							inner := http.HandlerFunc(func(w http.ResponseWriter, r *http.Request) {
+								served = true
+								if id := goidentity.FromHTTPRequestContext(r); id != nil {
+									who = id.UserName() + "@" + id.Domain()
+								}
+								w.WriteHeader(200)
+							})
+							h := spnego.SPNEGOKRB5Authenticate(inner, skt, service.DecodePAC(false))
+							req := httptest.NewRequest("GET", "http://svc.mit.test/x", nil)
+							req.RemoteAddr = "10.1.2.3:4444"
+							req.Header.Set("Authorization", "Negotiate "+base64.StdEncoding.EncodeToString(unhx(go_.Token)))
+							rec := httptest.NewRecorder()
+							hp = catch(func() { h.ServeHTTP(rec, req) })
+						} else {
+							hp = fmt.Sprintf("MIT produced no %s token (rc %d)", mech, go_.RC)
+						}
+					}
+					line["http_"+mech] = map[string]interface{}{"tried": !remote, "served": served, "identity": who, "panic": hp}
+				}
 				k.mu.Lock()
 				line["kdcIssued"] = len(k.issued)
 				k.mu.Unlock()
